@@ -411,6 +411,33 @@ struct Mod<smooth::AnyManifold>
 };
 
 // ------------------------------------------------------------------------------------------
+// A signal raised while a step executes (out-of-bounds access inside the library, ...) is RECORDED as the last
+// event of the trace ({"op":"crash",...}: history, step text, signal) and the process exits with code 4; the
+// driver resumes behind the crashed history.  Only async-signal-safe calls below.
+#include <csignal>
+static char g_pending[256] = "";   // "<hid> <step text>" of the step being executed
+static int g_trace_fd      = -1;
+static void crash_handler(int sig)
+{
+  if (g_trace_fd >= 0) {
+    char buf[512];
+    int n = 0;
+    const char * a = "{\"op\":\"crash\",\"sig\":";
+    for (const char * p = a; *p; ++p) buf[n++] = *p;
+    if (sig >= 10) buf[n++] = static_cast<char>('0' + sig / 10);
+    buf[n++] = static_cast<char>('0' + sig % 10);
+    const char * b = ",\"step\":\"";
+    for (const char * p = b; *p; ++p) buf[n++] = *p;
+    for (const char * p = g_pending; *p && n < 500; ++p) buf[n++] = *p;
+    buf[n++] = '"';
+    buf[n++] = '}';
+    buf[n++] = '\n';
+    ssize_t w = ::write(g_trace_fd, buf, static_cast<size_t>(n));
+    (void)w;
+  }
+  _exit(4);
+}
+
 template<typename M>
 struct Run
 {
@@ -635,6 +662,9 @@ struct Run
       return 2;
     }
     current_sink() = &sink;
+    std::setvbuf(sink.f, nullptr, _IONBF, 0);   // unbuffered: the crash record must come after everything written
+    g_trace_fd = ::fileno(sink.f);
+    for (int sg : {SIGSEGV, SIGBUS, SIGFPE, SIGILL, SIGABRT}) std::signal(sg, crash_handler);
     FILE * pf      = std::fopen(prog.c_str(), "r");
     if (!pf) return 2;
     char line[512];
@@ -644,6 +674,11 @@ struct Run
       std::string t;
       while (is >> t) w.push_back(t);
       if (w.empty() || w[0][0] == '#') continue;
+      {
+        std::string pend = std::to_string(w[0] == "begin" ? std::atol(w.at(1).c_str()) : hid);
+        for (const auto & t2 : w) pend += " " + t2;
+        std::snprintf(g_pending, sizeof g_pending, "%s", pend.c_str());
+      }
       const int rc = step(w);
       if (rc != 0) return rc;
     }
